@@ -17,6 +17,9 @@ def run(ctx):
     ctx.assumptions = ['attribute lists and parent free-slot lists are sorted by index (documented precondition)']
     from .. import schemespec
     for cfg, prog in ctx.programs().items():
+        from .. import inbounds
+        ni = inbounds.rule_inbounds(ctx, cfg, prog, only=['keygen', 'nondelegable_keygen', 'qualifykey', 'nondelegable_qualifykey', 'resamplekey', 'precompute'])
+        ctx.floor('R-INBOUNDS cursor-selected accesses[%s]' % cfg, ni, 15)
         cursor.rule_cursor(ctx, cfg, prog)
         ns = schemespec.rule_scheme(ctx, cfg, prog, which=['setup', 'keygen', 'nondelegable_keygen', 'qualifykey', 'nondelegable_qualifykey', 'resamplekey', 'decrypt', 'decrypt_master', 'encrypt_precomputed', 'precompute'])
         ctx.floor('R-SCHEME path segments[%s]' % cfg, ns, 40)
